@@ -42,6 +42,32 @@ type subResult struct {
 
 var procStart = time.Now()
 
+// Overlay loads (helper-inlined views) compile the rewritten packages; left in the default Go build cache, a single
+// failing check adds hundreds of megabytes and a thorough run tens of gigabytes.  They use a private cache directory
+// instead: created by the top-level process on first need, inherited by sub-processes through BCHVERIF_VIEWCACHE,
+// removed when the top-level process exits.
+var ownViewCache string
+
+func viewCacheDir() string {
+	if d := os.Getenv("BCHVERIF_VIEWCACHE"); d != "" {
+		return d
+	}
+	d, err := os.MkdirTemp("", "bchverif-gocache-")
+	if err != nil {
+		return ""
+	}
+	ownViewCache = d
+	os.Setenv("BCHVERIF_VIEWCACHE", d)
+	return d
+}
+
+func exitWith(code int) {
+	if ownViewCache != "" {
+		os.RemoveAll(ownViewCache)
+	}
+	os.Exit(code)
+}
+
 var (
 	noInline    = flag.Bool("no-inline", false, "do not consult the helper-inlined view when a rule fails")
 	inlinePairs = flag.String("inline", "", "analyse the view in which these caller>callee pairs (comma separated full names) are expanded")
@@ -51,6 +77,11 @@ var (
 )
 
 func main() {
+	defer func() {
+		if ownViewCache != "" {
+			os.RemoveAll(ownViewCache)
+		}
+	}()
 	prop := flag.String("prop", "", "property id (C01..C20)")
 	tier := flag.String("tier", "quick", "quick|thorough")
 	repo := flag.String("repo", "/repo", "repository working tree to analyse")
@@ -84,7 +115,7 @@ func main() {
 		b, err := os.ReadFile(*replay)
 		if err != nil {
 			fmt.Fprintln(os.Stderr, err)
-			os.Exit(2)
+			exitWith(2)
 		}
 		var rec struct {
 			Property   string `json:"property"`
@@ -92,7 +123,7 @@ func main() {
 		}
 		if err := json.Unmarshal(b, &rec); err != nil || rec.Obligation == nil {
 			fmt.Fprintln(os.Stderr, "bad replay file")
-			os.Exit(2)
+			exitWith(2)
 		}
 		*prop = rec.Property
 		replayOb = rec.Obligation
@@ -107,7 +138,7 @@ func main() {
 			fmt.Printf("%-12s %-40s expect=%q %s\n", s.Result, s.Name, s.Expect, s.Detail)
 		}
 		if sv.Blind > 0 || sv.FalseAlarms > 0 {
-			os.Exit(2)
+			exitWith(2)
 		}
 		return
 	}
@@ -115,7 +146,7 @@ func main() {
 		p, err := Load(*repo, parseConfig(*config))
 		if err != nil {
 			fmt.Println(err)
-			os.Exit(1)
+			exitWith(1)
 		}
 		ev := p.initEval()
 		for _, sp := range p.SSAPkgs {
@@ -165,14 +196,14 @@ func main() {
 		fmt.Printf("expanded %d call(s) in %d file(s); view loads: %v\n", total, len(overlay), err == nil)
 		if err != nil {
 			fmt.Println(err)
-			os.Exit(1)
+			exitWith(1)
 		}
 		return
 	}
 	f, ok := registry[*prop]
 	if !ok {
 		fmt.Fprintf(os.Stderr, "unknown or unimplemented property %q\n", *prop)
-		os.Exit(2)
+		exitWith(2)
 	}
 	cfg := parseConfig(*config)
 
@@ -189,7 +220,7 @@ func main() {
 	}
 	if r == nil {
 		fmt.Printf("VIOLATION property=%s replay=%s\n", *prop, "none(load-failure)")
-		os.Exit(1)
+		exitWith(1)
 	}
 	if replayOb != nil {
 		for _, o := range r.Obs {
@@ -197,13 +228,13 @@ func main() {
 				fmt.Printf("replay: %s %s %s at %s -> %s (%s)\n", o.Rule, o.Func, o.Construct, o.Pos, o.Status, o.How)
 				if o.Status == "violated" {
 					fmt.Printf("VIOLATION property=%s replay=%s\n", *prop, *replay)
-					os.Exit(1)
+					exitWith(1)
 				}
-				os.Exit(0)
+				exitWith(0)
 			}
 		}
 		fmt.Println("replay: obligation no longer present in the current tree")
-		os.Exit(0)
+		exitWith(0)
 	}
 	var extraObs []*Ob
 	extraCov := map[string]interface{}{}
@@ -266,9 +297,9 @@ func main() {
 	code = r.Finish(!*noEv, filtered, extraCov)
 	if code == 0 && exit2 {
 		fmt.Println("checker self-validation failed (seeded fault not detected or variant flagged); see evidence self_validation")
-		os.Exit(2)
+		exitWith(2)
 	}
-	os.Exit(code)
+	exitWith(code)
 }
 
 func flagSet(name string) bool {
